@@ -2,6 +2,12 @@
 import run_trace
 
 
+def signature(mis, event):
+    """One signature per CALL of the corpus, so that a known finding about one call never hides another."""
+    call = event['calls'][0] if event and event.get('calls') else '?'
+    return f"{mis['ev']}:{mis['clause']}:{call}"
+
+
 def run(prop, tier, seed, replay=None):
     jobs = [dict(name='seeds', script='rec_det_worker.py', args=['--tier', tier], module='TraceDet',
                  cfg='TraceDet.cfg', shards=16)]
@@ -13,6 +19,7 @@ def run(prop, tier, seed, replay=None):
             'checks they are one value. "behaviours" counts interpreter processes per shard; non-trivial: calls whose '
             'observation is longer than 40 characters.')
     return run_trace.run(prop, tier, seed, jobs, own=('C17.',), design=design, replay=replay, rule=rule,
+                         signature=signature,
                          assumptions=['memory addresses in reprs are masked (0x...)',
                                       'the corpus is seeded through random.Random(str), which does not depend on '
                                       'hash randomisation',
